@@ -1,3 +1,5 @@
 package main
 
-func replayFromModel(w *World, cs *Contracts, ob *Obligation, dir string) (string, bool) { return "", false }
+func replayFromModel(w *World, cs *Contracts, ob *Obligation, dir string) (string, bool) {
+	return "", false
+}
